@@ -53,6 +53,8 @@ impl<N, E> DiGraph<N, E> {
     pub uninterp spec fn edge_seq(&self) -> Seq<(NodeIndex, NodeIndex)>;
     /// the weight of edge `e` (meaningful for 0 <= e < edge_seq().len()); `graph[EdgeIndex]` returns it
     pub uninterp spec fn edge_weight(&self, e: int) -> E;
+    /// the weight (label) of node `n` (meaningful for 0 <= n < node_count_spec()); `graph[NodeIndex]` returns it
+    pub uninterp spec fn node_weight(&self, n: int) -> N;
 }
 
 /// petgraph: edges only connect existing nodes (`add_edge` "Panics if any of the nodes don't exist",
@@ -177,4 +179,22 @@ pub fn verif_common_edge_tids<'a, N>(g: &DiGraph<N, &'a Term<Jmp>>, a: &BTreeSet
         forall |e: EdgeIndex| a@.contains(e) && b@.contains(e) ==> e.i < g.edge_seq().len(),
     ensures
         cg_common_tids(*g, a@, b@, r@),
+{ unimplemented!() }
+
+/// `r` is the first node of `g` (in index order) whose weight is `w`.
+pub open spec fn cg_first_node_with<N, E>(g: DiGraph<N, E>, w: N, r: NodeIndex) -> bool {
+    &&& r.i < g.node_count_spec()
+    &&& g.node_weight(r.i as int) == w
+    &&& forall |j: int| 0 <= j < r.i ==> #[trigger] g.node_weight(j) != w
+}
+
+/// R9 target for `callgraph.node_indices().find(|node| callgraph[*node] == *W).unwrap_or_else(|| panic!(..))`.
+/// petgraph `Graph::node_indices`: "Return an iterator over the node indices of the graph" (0 .. node_count(), ascending);
+/// `Iterator::find`: "Searches for an element of an iterator that satisfies a predicate ... returns the first";
+/// `Index<NodeIndex>`: the node weight; `==` on `Tid` is the derived `PartialEq` (both strings equal), read as
+/// specification equality; `unwrap_or_else(|| panic!(..))`: diverges when there is no such node (as rule R5:
+/// panic-freedom is NOT claimed, after the call a node was found).
+#[verifier::external_body]
+pub fn verif_find_node_or_panic<N, E>(g: &DiGraph<N, E>, w: &N) -> (r: NodeIndex)
+    ensures cg_first_node_with(*g, *w, r)
 { unimplemented!() }
